@@ -100,6 +100,7 @@ UNIT_DRIVERS = {
     "manifest_invariant": ["levels::reopen_enum_quick"],
     "batch_seq": ["batch::roundtrip_enum"],
     "vlog_pointer": ["sstable::table::min_vlog_file_id_enum"],
+    "filter_single": ["sstable::table::roundtrip_enum_quick"],
     "table_add": ["sstable::table::roundtrip_enum_quick", "sstable::table::min_vlog_file_id_enum"],
     "table_meta": ["sstable::table::roundtrip_enum_quick"],
     "recovery_flush": ["wal::crash_enum_quick"],
